@@ -88,3 +88,21 @@ Theorem C03_failed_add_factory_changes_nothing : forall x f kind name types desc
   fst (run_addfac add_factory_stages x f kind name types desc) = x.
 Proof. exact failed_add_factory_changes_nothing. Qed.
 Print Assumptions C03_failed_add_factory_changes_nothing.
+
+(* the same for EVERY order of the stages in which no check stands behind an effect (and a teardown callback is
+   registered only where it was checked to be callable): the property does not depend on the particular order
+   of the checks, only on their standing before the effects *)
+Theorem C03_failed_add_changes_nothing_for_any_order : forall l x v types_ name desc cb e,
+  checks_first is_check l = true ->
+  (cb = BadCb -> In A_callback_callable l \/ ~ In A_register_callback l) ->
+  snd (run_add l x v types_ name desc cb) = Err e ->
+  fst (run_add l x v types_ name desc cb) = x.
+Proof. exact failed_add_changes_nothing_for_any_order. Qed.
+Print Assumptions C03_failed_add_changes_nothing_for_any_order.
+
+Theorem C03_failed_add_factory_changes_nothing_for_any_order : forall l x f kind name types desc e,
+  checks_first fac_is_check l = true ->
+  snd (run_addfac l x f kind name types desc) = Err e ->
+  fst (run_addfac l x f kind name types desc) = x.
+Proof. exact failed_add_factory_changes_nothing_for_any_order. Qed.
+Print Assumptions C03_failed_add_factory_changes_nothing_for_any_order.
